@@ -1,6 +1,6 @@
-CONSTANTS MaxAtom = 3
+CONSTANTS MaxAtom = 2
  Objs = {o1}
- Depth = 10
+ Depth = 100
  FlushOnDelete = TRUE
  FlushOnCommit = TRUE
  ResetChangedOnAbort = TRUE
@@ -9,7 +9,7 @@ CONSTANTS MaxAtom = 3
  InitSlotsOnCopy = TRUE
  RestoreCacheOnAbort = TRUE
  FullFlushOnSpecialDelete = TRUE
- PackMemoised = FALSE
+ PackMemoised = TRUE
  Elems <- SmallElems
  Orders <- SmallOrders
  Charges <- SmallCharges
